@@ -1,5 +1,5 @@
 (* C08 - CTAP1/U2F APDU parsing is total and follows the U2F raw message format. *)
-From Ctap Require Import Base Schema Wire Typed Procs Inst Tables ProcTables Finite FramingP WireP C18P U2fP FrameP ObByteTables FnShapes Shapes ObShapeU2fParse Deps ObDeps.
+From Ctap Require Import Base Schema Wire Typed Procs Inst Tables ProcTables Finite FramingP WireP C18P U2fP FrameP ObByteTables FnShapes Shapes ObShapeU2fParse Deps ObDeps PlainDecls ObPlainU2fRequests.
 Local Open Scope string_scope.
 Local Open Scope Z_scope.
 
@@ -82,6 +82,10 @@ Proof. exact generated_shapes_u2f_parse. Qed.
 Theorem c08_modelled_dependencies_pinned : deps_hold repo_lock_present lock_versions harness_lock_versions cargo_deps = true.
 Proof. exact generated_deps. Qed.
 
+(* the plain structures (no serde meaning of their own) whose member types the model relies on *)
+Theorem c08_plain_structures_unchanged_u2f_requests : plain_hold raw_decls plain_u2f_requests = true.
+Proof. exact generated_plain_u2f_requests. Qed.
+
 Eval vm_compute in "ASSUMPTIONS c08_decision_table". Print Assumptions c08_decision_table.
 Eval vm_compute in "ASSUMPTIONS c08_never_panics". Print Assumptions c08_never_panics.
 Eval vm_compute in "ASSUMPTIONS c08_class_first". Print Assumptions c08_class_first.
@@ -95,3 +99,4 @@ Eval vm_compute in "ASSUMPTIONS c08_frame_extended". Print Assumptions c08_frame
 Eval vm_compute in "ASSUMPTIONS c08_raw_apdu_decision". Print Assumptions c08_raw_apdu_decision.
 Eval vm_compute in "ASSUMPTIONS c08_modelled_functions_unchanged_u2f_parse". Print Assumptions c08_modelled_functions_unchanged_u2f_parse.
 Eval vm_compute in "ASSUMPTIONS c08_modelled_dependencies_pinned". Print Assumptions c08_modelled_dependencies_pinned.
+Eval vm_compute in "ASSUMPTIONS c08_plain_structures_unchanged_u2f_requests". Print Assumptions c08_plain_structures_unchanged_u2f_requests.
